@@ -14,11 +14,11 @@ from ..scen import REQ, RESP, hb
 LEVEL = 'exploration'
 RULE = ('each case = 30-250 steps interleaving send_data (with/without padding, exact-fit and fit+1 probes), end_stream, '
         'peer WINDOW_UPDATE (stream/connection, incl. exact fit to 2^31-1 and overflow) and peer SETTINGS changing '
-        'INITIAL_WINDOW_SIZE up/down/into negative windows and MAX_FRAME_SIZE, over 1-12 streams incl. pushed ones; '
+        'INITIAL_WINDOW_SIZE up/down/into negative windows and MAX_FRAME_SIZE, over 1-12 streams incl. pushed ones and, on servers, the h2c-upgraded stream 1 whose window comes from the HTTP2-Settings header; '
         'non-trivial = at least one DATA frame checked against the shadow and one probe judged; distinct = hash of the step list')
 MINIMA = {'data_frames_checked': 5000, 'window_queries_checked': 20000, 'probe_exact_fit_ok': 500,
           'probe_overrun_refused': 500, 'negative_window_states': 100, 'padded_data_checked': 500,
-          'reserved_streams_activated': 50}
+          'reserved_streams_activated': 50, 'upgraded_server_starts': 100}
 MAXW = 2 ** 31 - 1
 
 
@@ -52,13 +52,38 @@ class OutShadow(object):
 
 def run_case(idx, rng, tier, rep):
     e_client = rng.random() < 0.6
-    h = scen.Hostile(e_client, keep_log=True)
-    t = h.t
+    upgraded = (not e_client) and rng.random() < 0.15
     sh = OutShadow()
     can_send = []        # streams E may send DATA on
     reserved = []        # promised streams whose response has not started: they already own a send window
     steps = []
     ctx = {'alive': True}
+    if upgraded:
+        # h2c upgrade on a server: the client's settings arrive in the HTTP2-Settings header and govern stream 1 from the start
+        import base64
+        import struct
+        iws0 = rng.choice([0, 1, 100, 1000, 65535, 100000, 2 ** 20])
+        pairs = [(wire.S_INITIAL_WINDOW_SIZE, iws0)] + ([(wire.S_MAX_FRAME_SIZE, 32768)] if rng.random() < 0.3 else [])
+        payload = b''.join(struct.pack('>HI', k, v) for k, v in pairs)
+        h = scen.Hostile(False, keep_log=True, handshake=False)
+        t = h.t
+        r0 = t.call('initiate_upgrade_connection', base64.urlsafe_b64encode(payload).rstrip(b'='))
+        if r0.exc is not None:
+            rep.violation('C03:upgrade-raises:' + core.exc_key(r0.exc), repr(r0.exc))
+            return
+        sh.delivered_settings(pairs)
+        sh.created(1)
+        h.peer_next = 3
+        r0 = h.send(wire.PREFACE + wire.build_settings(pairs))
+        if not r0.ok:
+            return
+        steps.append(('upgraded', pairs))
+        rep.count('upgraded_server_starts')
+        if t.call('send_headers', 1, RESP).ok:
+            can_send.append(1)
+    else:
+        h = scen.Hostile(e_client, keep_log=True)
+        t = h.t
 
     def fail(key, what):
         rep.violation(key, what, {'role': 'client' if e_client else 'server', 'steps_tail': steps[-15:],
